@@ -102,7 +102,8 @@ def binary_part(chk, tbin, scratch, n):
             for env in layouts(rng, 3, os.path.join(scratch, 'bt%d' % k)):
                 e = dict(os.environ); e.update(env)
                 p = subprocess.run([tbin, '-t' + typ, '-i', f], capture_output=True, env=e, timeout=120)
-                outs.append(p.stdout)
+                # the tool starts its HTTP server on a fixed port and logs whether that worked: depends on what else runs on the machine, not on the input
+                outs.append(b'\n'.join(l for l in p.stdout.split(b'\n') if not (l.startswith(b'[') and b'HTTP server' in l)))
             cnt += len(outs); chk.count(len(outs))
             if len(set(outs)) != 1:
                 a, b2 = outs[0], [o for o in outs if o != outs[0]][0]
